@@ -21,13 +21,24 @@ statement by statement; the mirrored source region is hash-pinned).
   connected at the tick (`C17_arm_not_weak_when_disconnected`) and for every link when the tick's total is under the
   floor (`C17_arm_not_weak_under_floor`); the filter state along a `Full` run is `classify` folded over the slices at the
   ticks (`C17_arm_history`), i.e. the stamped flags of a run from a fresh filter are `verdictAt` of that history and the
-  streak / probation / hysteresis theorems of `Props/C17.lean` apply (`C17_arm_at_most_15_in_a_row` as the instance);
+  streak / probation / hysteresis theorems of `Props/C17.lean` apply; stated over the STAMPED flags of the run (audit 5,
+  A2): `C17_arm_at_most_15_in_a_row` (no conn id leaves the arm `weak = true` with reported reason LowShare / NoTraffic
+  at 16 consecutive ticks), `C17_arm_probation_three_ticks` (after 15 such ticks, three ticks with `weak = false` while
+  the id stays present); no event but a tick touches the filter / controller (`C17_arm_reload_keeps_filter`, §4);
 * **C16 at arm level** (§3): the stamped `cc_target_bps` / `cc_backing_off` / `loss_degraded` are the snapshot of the
   link's controller entry, which exists (`C16_arm_target_is_snapshot`); the entries after a tick are EXACTLY the conn ids
   of the links of that tick (`C16_arm_entries_exact`); a link the controller has no entry for — e.g. one a reload
   created since the last tick — starts from `LinkCongestionState::default()` (`C16_arm_fresh_from_default`,
   `C16_arm_reload_link_starts_default`); along EVERY run of the whole sender the stamped target of every link is 0 or
-  within [100 000, 200 000 000] (`C16_arm_bounds_run`).
+  within [100 000, 200 000 000] (`C16_arm_bounds_run`); right after every tick of every run every link carries the
+  snapshot of its OWN entry (never 0), and between ticks 0 occurs only on a link whose conn id a reload drew since the
+  last tick (`C16_arm_own_snapshot_run`, audit 5 A3).
+
+Limits (audit 5): the model is tied to the harness's statement-by-statement MIRROR of the arm (op `hkarm`), not to the
+arm inside `run_sender_with_config` itself, which is covered by a hash pin and `looptrace` only (A1, harness side);
+every Lean example tick is a bypass tick (`exViews` reads 0.0 bit/s; `Float` is opaque to `decide`), so non-vacuity of
+"stamped weak = true" rests on the harness counters `hkarm-weak-stamped` / `hkarm-classified` (A7); `Full` lets a
+reload happen anywhere between ticks, the real loop runs it inside the tick after the stamps (a superset, A10).
 
 Scalars: `F` (shell) and `G` (controller) are arbitrary; the classifier front end is `Float` (uninterpreted in the
 proofs, as in `Props/C17.lean`).  The views are a parameter; the theorems that relate a verdict to THE link need
@@ -85,7 +96,9 @@ def exEvs : List FEv :=
 `sync_conn_timeout`, `handle_housekeeping`, then one `Ev.stamp i …` per link in index order whose verdicts are
 `armStamp` = `stampOf` of the classification `classify s.cls (views of the links after housekeeping)` and of the
 controller `tickAll s.ctl (views of the links after housekeeping) now`, looked up by the conn id of link `i`; the
-arm's output is housekeeping's; the filter / controller components are the `classify` / `tickAll` results. -/
+arm's output is housekeeping's; the filter / controller components are the `classify` / `tickAll` results.
+(Audit 5, A8: the CONTENT is conjunct 1 - the `map` of the stamping loop is the left-to-right run of the `stamp`
+events; conjuncts 2-5 restate the definition of `hkArm` / `armStamp` and hold by `rfl`.) -/
 theorem hkArm_projects (v : Views F G) (s : Full F G) (now : Nat) :
     (hkArm v s now).1.sys =
       (run s.sys ([.syncTimeout, .hk now] ++
@@ -106,7 +119,11 @@ theorem Full_run_projects (v : Views F G) (s : Full F G) (es : List FEv) :
     (Full.run v s es).1.sys = (run s.sys (trace v s es)).1 :=
   run_sys v s es
 
-/-- Hence every run-level theorem about `Sys.run` applies to the shell component of every `Full` run. -/
+/-- Hence every run-level theorem about `Sys.run` applies to the shell component of every `Full` run.
+LIMIT (audit 5, A8): `hP` must hold for ALL shell event lists from `s.sys`, bare `stamp` events with arbitrary
+verdicts included, so only stamp-INSENSITIVE predicates transfer this way.  A theorem with hypotheses on the event
+list (`FreshRun`, clocks, `NoReload` …) must be applied to `trace v s es` itself via `Full_run_projects`, and its
+hypotheses discharged on that list, which contains the COMPUTED verdicts (as `Full_run_inv` does for `FreshRun`). -/
 theorem Full_run_transfer (v : Views F G) (s : Full F G) (es : List FEv) (P : Sys F → Prop)
     (hP : ∀ evs, P (run s.sys evs).1) : P (Full.run v s es).1.sys := by
   rw [Full_run_projects]; exact hP _
@@ -174,7 +191,8 @@ theorem armStamp_weak (v : Views F G) (s : Full F G) (now id : Nat) :
 `handle_housekeeping`, which is what `classify` reads): the link at index `i` after the arm is that link with
 `weak` = the `weak` of the FIRST entry of `classification.per_link` with its conn id, `false` if there is none; with
 faithful views and pairwise distinct conn ids that entry is the verdict `verdictOf` the filter computed for THIS
-link's readings. -/
+link's readings.  (Audit 5, A8: conjunct 3 - `weak` = `find … unwrap_or(false)` - restates `stampOf` and holds by
+`rfl`; the content is conjunct 4, which needs `Faithful` and `Nodup`.) -/
 theorem C17_arm_weak_is_verdict (v : Views F G) (hv : Faithful v) (s : Full F G) (now i : Nat) (l : FLink F)
     (hl : (afterHk s.sys now).1.links[i]? = some l) :
     ∃ l', (hkArm v s now).1.sys.links[i]? = some l' ∧ l'.core.connId = l.core.connId ∧
@@ -200,7 +218,12 @@ theorem C17_arm_weak_is_verdict (v : Views F G) (hv : Faithful v) (s : Full F G)
   rfl
 
 /-- **Never stamped weak while not connected.**  A link that is not `connected` at the tick (after
-`handle_housekeeping`) leaves the arm with `weak = false` — faithful views, pairwise distinct conn ids. -/
+`handle_housekeeping`) leaves the arm with `weak = false` — faithful views, pairwise distinct conn ids.
+LIMIT (audit 5, A5): this is about the state RIGHT AFTER the arm.  Between ticks `mark_for_recovery` (a failed
+threshold send, REG_ERR) sets `connected = false` and nothing clears `conn.weak` (`step_verdicts`: only `stamp`
+writes it), so `weak ∧ ¬connected` IS reachable for up to one tick period (1 s), in the model and in the code alike.
+The property text ("never REPORTED weak while disconnected") is met - reports are made at ticks -; the invariant
+"weak ⇒ connected" at every instant is NOT claimed and does not hold. -/
 theorem C17_arm_not_weak_when_disconnected (v : Views F G) (hv : Faithful v) (s : Full F G) (now i : Nat)
     (l : FLink F) (hnd : (ids s.sys.links).Nodup) (hl : (afterHk s.sys now).1.links[i]? = some l)
     (hc : l.core.connected = false) :
@@ -245,10 +268,22 @@ theorem C17_arm_not_weak_under_floor (v : Views F G) (s : Full F G) (now : Nat)
     obtain ⟨x, -, rfl⟩ := ho
     simp [Classifier.verdictOf, hb]
 
--- non-vacuity: no connected link in the slice (`connectedCount = 0`) is exhibited by a state whose links are all
--- down; a total under the floor cannot be evaluated inside Lean (f64 comparison), the harness counts it
--- (`hkarm-under-floor`)
-example : Classifier.connectedCount (clsTick exViews [FLink.newUplink 3 3 0]) = 0 := by decide
+/-- `exF` with every link down (`connected = false`); link 2 still carries the stamp `weak = true`. -/
+def exDown : Full Int Rat :=
+  { exF with sys := { exF.sys with links := exF.sys.links.map fun l =>
+      { l with core := { l.core with connected := false } } } }
+
+-- non-vacuity (audit 5, A7: on a NON-pristine state and THROUGH the arm): in `exDown` no link is connected after
+-- `handle_housekeeping` at 5100 (`connectedCount = 0`: the second disjunct of the hypothesis), link 2 enters the arm
+-- with `weak = true` and every link leaves it with `weak = false`.  The FIRST disjunct (a total under the floor) is
+-- an f64 comparison and cannot be evaluated inside Lean; more generally, with `exViews` (0.0 bit/s, no Kalman value)
+-- EVERY Lean example tick of this file is a bypass tick: no Lean example has a classified tick or a `weak = true`
+-- stamp.  Non-vacuity of "stamped weak = true", of the floor disjunct and of every C17 clause through the arm rests
+-- on the harness counters `hkarm-weak-stamped`, `hkarm-classified`, `hkarm-under-floor` (component `sys`).
+example : Classifier.connectedCount (clsTick exViews (afterHk exDown.sys 5100).1.links) = 0 ∧
+    exDown.sys.links.map (·.weak) = [false, true, false] ∧
+    (hkArm exViews exDown 5100).1.sys.links.map (·.weak) = [false, false, false] :=
+  ⟨by decide +kernel, by decide +kernel, by decide +kernel⟩
 
 /-! ### The filter state along a run is `classify` folded over the slices at the ticks -/
 
@@ -354,19 +389,203 @@ theorem uniqueIds_histOf (ts : List Classifier.Tick) (h : ∀ t ∈ ts, (t.map (
   | none => exact List.nodup_nil
   | some t => exact h t (List.mem_of_getElem? hk)
 
-/-- Instance of the transfer: **no link is stamped share-weak (LowShare / NoTraffic) at 16 consecutive ticks of any
-run of the whole sender** — `C17_at_most_15_in_a_row` for the history of the run, whose input restriction
-(`uniqueIds`) is PROVED from `Inv` and `FreshRun`, for any events between the ticks. -/
-theorem C17_arm_at_most_15_in_a_row (v : Views F G) (hv : Faithful v) (s : Full F G) (es : List FEv)
+/-- The input restriction of `Props/C17.lean` holds of the history of every run: the slices `classify` is handed have
+pairwise distinct ids (`uniqueIds`, PROVED from `Inv` and `FreshRun`, for any events between the ticks), and therefore
+`C17.C17_at_most_15_in_a_row` applies to that history.  NOTE (audit 5, A2): `shareWeakAt (histOf …)` is about the
+verdicts of a FRESH filter fed the slices of the run; this theorem alone says nothing about a stamped flag, and for
+`s.cls ≠ State.init` the history's filter is not the filter of the run.  The statement about the STAMPED flags is
+`C17_arm_at_most_15_in_a_row` below (this one is its first step and keeps the old statement under an honest name). -/
+theorem C17_arm_history_uniqueIds (v : Views F G) (hv : Faithful v) (s : Full F G) (es : List FEv)
     (hinv : Inv s.sys) (hf : FreshRun s.sys (trace v s es)) (k id : Nat) :
     C17.uniqueIds (histOf (ticksOf v s es)) ∧
     ¬ (∀ j < 16, C17.shareWeakAt (histOf (ticksOf v s es)) (k + j) id) :=
   ⟨uniqueIds_histOf _ (ticks_nodup v hv s es hinv hf),
    C17.C17_at_most_15_in_a_row _ (uniqueIds_histOf _ (ticks_nodup v hv s es hinv hf)) k id⟩
 
--- non-vacuity: the example run from a fresh filter has two ticks, i.e. a history with two slices of three links
-example : (ticksOf exViews { exF with cls := Classifier.State.init } exEvs).map List.length = [3, 4] := by
-  decide +kernel
+/-! ### The STAMPED flags along a run (audit 5, A2) -/
+
+/-- The ticks of a run of the whole sender, in order: the state each tick STARTS from and its clock.  Index `n` is the
+`n`-th tick of the run, whatever other events (client / uplink / flush / reload …) lie between the ticks. -/
+def tickPts (v : Views F G) (s : Full F G) : List FEv → List (Full F G × Nat)
+  | [] => []
+  | .tick now :: es => (s, now) :: tickPts v (hkArm v s now).1 es
+  | .other e :: es => tickPts v (Full.step v s (.other e)).1 es
+
+theorem ticksOf_eq_map (v : Views F G) (s : Full F G) (es : List FEv) :
+    ticksOf v s es = (tickPts v s es).map fun p => clsTick v (afterHk p.1.sys p.2).1.links := by
+  induction es generalizing s with
+  | nil => rfl
+  | cons e es ih =>
+    cases e with
+    | tick now =>
+      show _ :: ticksOf v _ es = _ :: List.map _ (tickPts v _ es)
+      rw [ih]
+    | other e => exact ih _
+
+/-- The filter state the `n`-th tick of a run starts from: `nextState` folded over the slices of the earlier ticks. -/
+theorem tickPts_cls (v : Views F G) (s : Full F G) (es : List FEv) (n : Nat) (p : Full F G × Nat)
+    (h : (tickPts v s es)[n]? = some p) :
+    p.1.cls = ((ticksOf v s es).take n).foldl Classifier.nextState s.cls := by
+  induction es generalizing s n with
+  | nil => simp [tickPts] at h
+  | cons e es ih =>
+    cases e with
+    | tick now =>
+      cases n with
+      | zero =>
+        have hp : (s, now) = p := by simpa [tickPts] using h
+        subst hp; rfl
+      | succ n => exact ih _ n h
+    | other e => exact ih _ n h
+
+theorem range_map_histOf_take (ts : List Classifier.Tick) (n : Nat) (hn : n ≤ ts.length) :
+    (List.range n).map (histOf ts) = ts.take n := by
+  have h := range_map_histOf (ts.take n) (ts.drop n)
+  rwa [List.take_append_drop, List.length_take, Nat.min_eq_left hn] at h
+
+/-- **The `n`-th tick of a run from a fresh filter IS step `n` of the run's history**: its slice is `h n`, the
+filter state it starts from is `stateAt h n`, and the conn ids it sees are pairwise distinct. -/
+theorem tickPts_history (v : Views F G) (hv : Faithful v) (s : Full F G) (hs : s.cls = Classifier.State.init)
+    (es : List FEv) (hinv : Inv s.sys) (hf : FreshRun s.sys (trace v s es)) (n : Nat) (p : Full F G × Nat)
+    (hp : (tickPts v s es)[n]? = some p) :
+    histOf (ticksOf v s es) n = clsTick v (afterHk p.1.sys p.2).1.links ∧
+    p.1.cls = Classifier.stateAt (histOf (ticksOf v s es)) n ∧ (ids p.1.sys.links).Nodup := by
+  have hget : (ticksOf v s es)[n]? = some (clsTick v (afterHk p.1.sys p.2).1.links) := by
+    rw [ticksOf_eq_map, List.getElem?_map, hp]; rfl
+  have hlt : n < (ticksOf v s es).length := (List.getElem?_eq_some_iff.1 hget).1
+  refine ⟨?_, ?_, ?_⟩
+  · simp only [histOf, List.getD, hget, Option.getD_some]
+  · rw [stateAt_eq_foldl, range_map_histOf_take _ _ (Nat.le_of_lt hlt), tickPts_cls v s es n p hp, hs]
+  · have hnd := ticks_nodup v hv s es hinv hf _ (List.mem_of_getElem? hget)
+    have : (clsTick v (afterHk p.1.sys p.2).1.links).map (·.id) = ids (afterHk p.1.sys p.2).1.links := by
+      simp only [clsTick, ids, List.map_map]
+      exact List.map_congr_left fun l _ => hv.clsId l
+    rwa [this, afterHk_ids] at hnd
+
+/-- The classification entry `find` returns for the conn id of a link of the tick is the verdict computed for THAT
+link's readings (faithful views, pairwise distinct conn ids). -/
+theorem arm_find (v : Views F G) (hv : Faithful v) (s : Full F G) (now : Nat) (l : FLink F)
+    (hnd : (ids s.sys.links).Nodup) (hl : l ∈ (afterHk s.sys now).1.links) :
+    (Classifier.classify s.cls (clsTick v (afterHk s.sys now).1.links)).2.perLink.find? (·.id == l.core.connId) =
+      some (Classifier.verdictOf s.cls (clsTick v (afterHk s.sys now).1.links) (v.cls l)) := by
+  have hnd' : ((afterHk s.sys now).1.links.map (·.core.connId)).Nodup := by
+    have := afterHk_ids s.sys now
+    unfold ids at this; rw [this]; exact hnd
+  have hfind := find_map_nodup (afterHk s.sys now).1.links (·.core.connId)
+    (fun l => Classifier.verdictOf s.cls (clsTick v (afterHk s.sys now).1.links) (v.cls l)) (·.id)
+    (fun x => by rw [Classifier.verdictOf_id, hv.clsId]) hnd' l hl
+  have hper : (Classifier.classify s.cls (clsTick v (afterHk s.sys now).1.links)).2.perLink =
+      (afterHk s.sys now).1.links.map
+        (fun l => Classifier.verdictOf s.cls (clsTick v (afterHk s.sys now).1.links) (v.cls l)) := by
+    simp only [Classifier.classify, clsTick, List.map_map]; rfl
+  rw [hper]; exact hfind
+
+/-- **Conn id `id` leaves the arm run from `s` at `now` STAMPED share-weak**: a link with that conn id is present
+after the arm and carries `weak = true` (the flag selection reads), and the reason the classification of this tick
+reports for the id (`per_link.iter().find(..)`, the entry the stamping loop reads) is LowShare or NoTraffic.  (The
+reason is not stamped on the connection; it is what the arm publishes with the verdict.) -/
+def StampedShareWeak (v : Views F G) (s : Full F G) (now id : Nat) : Prop :=
+  (∃ l' ∈ (hkArm v s now).1.sys.links, l'.core.connId = id ∧ l'.weak = true) ∧
+  ∃ o, (Classifier.classify s.cls (clsTick v (afterHk s.sys now).1.links)).2.perLink.find? (·.id == id) = some o ∧
+    (o.reason = .LowShare ∨ o.reason = .NoTraffic)
+
+/-- A link after the arm is a link of the tick with its stamp, and its `weak` is the verdict for its readings. -/
+theorem hkArm_mem_weak (v : Views F G) (hv : Faithful v) (s : Full F G) (now : Nat) (l' : FLink F)
+    (hnd : (ids s.sys.links).Nodup) (hl' : l' ∈ (hkArm v s now).1.sys.links) :
+    ∃ l ∈ (afterHk s.sys now).1.links, l'.core.connId = l.core.connId ∧
+      l'.weak = (Classifier.verdictOf s.cls (clsTick v (afterHk s.sys now).1.links) (v.cls l)).weak := by
+  rw [hkArm_links] at hl'
+  obtain ⟨l, hl, rfl⟩ := List.mem_map.1 hl'
+  refine ⟨l, hl, stamped_connId _ _, ?_⟩
+  rw [stamped_weak, armStamp_weak, arm_find v hv s now l hnd hl]
+  rfl
+
+/-- A stamped share-weak verdict at the `n`-th tick of a run from a fresh filter is `shareWeakAt` of the run's
+history at `n`. -/
+theorem stampedShareWeak_history (v : Views F G) (hv : Faithful v) (s : Full F G)
+    (hs : s.cls = Classifier.State.init) (es : List FEv) (hinv : Inv s.sys) (hf : FreshRun s.sys (trace v s es))
+    (n id : Nat) (p : Full F G × Nat) (hp : (tickPts v s es)[n]? = some p)
+    (hsw : StampedShareWeak v p.1 p.2 id) : C17.shareWeakAt (histOf (ticksOf v s es)) n id := by
+  obtain ⟨h1, h2, hnd⟩ := tickPts_history v hv s hs es hinv hf n p hp
+  obtain ⟨⟨l', hl', hid, hw⟩, o, ho, hr⟩ := hsw
+  obtain ⟨l, hl, hid', hw'⟩ := hkArm_mem_weak v hv p.1 p.2 l' hnd hl'
+  have hidl : l.core.connId = id := hid'.symm.trans hid
+  rw [← hidl, arm_find v hv p.1 p.2 l hnd hl] at ho
+  have ho' : Classifier.verdictOf p.1.cls (clsTick v (afterHk p.1.sys p.2).1.links) (v.cls l) = o :=
+    Option.some.inj ho
+  refine ⟨v.cls l, ?_, (hv.clsId l).trans hidl, ?_, ?_⟩
+  · rw [h1]; exact List.mem_map.2 ⟨l, hl, rfl⟩
+  · unfold Classifier.verdictAt; rw [h1, ← h2, ← hw']; exact hw
+  · unfold Classifier.verdictAt; rw [h1, ← h2, ho']; exact hr
+
+/-- **No conn id is STAMPED share-weak at 16 consecutive ticks of any run of the whole sender** (audit 5, A2: the
+statement about the flags on the connections, not about an abstract history).  From a fresh filter
+(`WeakLinkFilter::new()`, `hs`), pairwise distinct conn ids, reloads drawing new ids; ANY events between the ticks
+(client / uplink / flush traffic, reloads, the pre-loop pass).  For every window of 16 consecutive ticks
+`k, …, k+15` of the run (`tickPts`: the state each tick starts from) and every conn id: it is NOT the case that at
+each of them a link with that id leaves the arm with `weak = true` and reported reason LowShare / NoTraffic.
+Composition of `C17_arm_history` (as `tickPts_history`: the run's filter IS the history's), `C17_arm_weak_is_verdict`
+(as `hkArm_mem_weak`: the stamped flag IS the verdict) and `C17.C17_at_most_15_in_a_row`.
+Limits: a window that is not entirely inside the run (fewer than `k + 16` ticks) is excluded by the hypothesis, not
+claimed; a filter that is not fresh at the start of the run is not covered (its stored streak may already be 14). -/
+theorem C17_arm_at_most_15_in_a_row (v : Views F G) (hv : Faithful v) (s : Full F G)
+    (hs : s.cls = Classifier.State.init) (es : List FEv) (hinv : Inv s.sys)
+    (hf : FreshRun s.sys (trace v s es)) (k id : Nat) :
+    ¬ (∀ j < 16, ∃ p, (tickPts v s es)[k + j]? = some p ∧ StampedShareWeak v p.1 p.2 id) := by
+  intro h
+  refine C17.C17_at_most_15_in_a_row _ (uniqueIds_histOf _ (ticks_nodup v hv s es hinv hf)) k id fun j hj => ?_
+  obtain ⟨p, hp, hsw⟩ := h j hj
+  exact stampedShareWeak_history v hv s hs es hinv hf _ id p hp hsw
+
+/-- **… and then three not-weak ticks.**  If conn id `id` is stamped share-weak at the 15 consecutive ticks
+`k, …, k+14` of a run (as above), then at each of the next three ticks `k+15+m` (`m < 3`) of the run at which the id
+is still present — and was present at the ticks `k+15, …` before it — EVERY link with that conn id leaves the arm
+with `weak = false`.  (`C17.C17_probation` through the arm; a link REMOVED in between has no "next verdicts", a link
+re-added under the same id starts fresh - hence the presence hypothesis.) -/
+theorem C17_arm_probation_three_ticks (v : Views F G) (hv : Faithful v) (s : Full F G)
+    (hs : s.cls = Classifier.State.init) (es : List FEv) (hinv : Inv s.sys)
+    (hf : FreshRun s.sys (trace v s es)) (k id : Nat)
+    (hrun : ∀ j < 15, ∃ p, (tickPts v s es)[k + j]? = some p ∧ StampedShareWeak v p.1 p.2 id)
+    (m : Nat) (hm : m < 3)
+    (hpres : ∀ u < m, ∃ p, (tickPts v s es)[k + 15 + u]? = some p ∧ id ∈ ids p.1.sys.links)
+    (p : Full F G × Nat) (hp : (tickPts v s es)[k + 15 + m]? = some p) :
+    ∀ l' ∈ (hkArm v p.1 p.2).1.sys.links, l'.core.connId = id → l'.weak = false := by
+  intro l' hl' hid
+  obtain ⟨h1, h2, hnd⟩ := tickPts_history v hv s hs es hinv hf _ p hp
+  obtain ⟨l, hl, hid', hw'⟩ := hkArm_mem_weak v hv p.1 p.2 l' hnd hl'
+  have hu := uniqueIds_histOf _ (ticks_nodup v hv s es hinv hf)
+  have key := C17.C17_probation (histOf (ticksOf v s es)) hu k id
+    (fun j hj => by
+      obtain ⟨q, hq, hsw⟩ := hrun j hj
+      exact stampedShareWeak_history v hv s hs es hinv hf _ id q hq hsw)
+    m hm
+    (fun u hu' => by
+      obtain ⟨q, hq, hin⟩ := hpres u hu'
+      obtain ⟨g1, -, -⟩ := tickPts_history v hv s hs es hinv hf _ q hq
+      refine Or.inr ?_
+      rw [← afterHk_ids q.1.sys q.2] at hin
+      obtain ⟨x, hx, hxid⟩ := List.mem_map.1 hin
+      exact ⟨v.cls x, by rw [g1]; exact List.mem_map.2 ⟨x, hx, rfl⟩, (hv.clsId x).trans hxid⟩)
+    (v.cls l) (by rw [h1]; exact List.mem_map.2 ⟨l, hl, rfl⟩) ((hv.clsId l).trans (hid'.symm.trans hid))
+  rw [hw']
+  have := key.1
+  unfold Classifier.verdictAt at this
+  rw [h1, ← h2] at this
+  exact this
+
+-- non-vacuity: the example run from a fresh filter has two ticks (at 5100 and 6100; a client datagram before, a
+-- reload and an uplink datagram between them), i.e. a history with two slices of three resp. four links, and the
+-- hypotheses `s.cls = init`, `Inv`, `FreshRun` of the two theorems hold of it.  The PREMISE "stamped share-weak at
+-- 15 ticks" cannot be exhibited inside Lean (the classifier front end is `Float`, opaque to `decide`; `exViews`
+-- reads 0.0 bit/s, so every Lean example tick is a bypass tick): that verdicts do change on the real code and the
+-- model alike is shown by the harness counters `hkarm-weak-stamped`, `hkarm-classified` (component `sys`).
+example : (ticksOf exViews { exF with cls := Classifier.State.init } exEvs).map List.length = [3, 4] ∧
+    (tickPts exViews { exF with cls := Classifier.State.init } exEvs).map (·.2) = [5100, 6100] ∧
+    ({ exF with cls := Classifier.State.init } : Full Int Rat).cls = Classifier.State.init ∧
+    Inv ({ exF with cls := Classifier.State.init } : Full Int Rat).sys ∧
+    FreshRun ({ exF with cls := Classifier.State.init } : Full Int Rat).sys
+      (trace exViews { exF with cls := Classifier.State.init } exEvs) :=
+  ⟨by decide +kernel, by decide +kernel, rfl, exF_inv, by decide +kernel⟩
 
 /-! ## 3. C16 at arm level -/
 
@@ -523,10 +742,14 @@ theorem ArmInv_step (v : Views F G) (s : Full F G) (h : ArmInv s) (e : FEv) (hwf
 
 /-- **Along every run of the whole sender the stamped target of every link is 0 or within
 [100 000, 200 000 000] bit/s** — any interleaving of ticks with client / uplink / flush / reload / configuration /
-injection events (`FEv.wf`: the shell events `hk`, `syncTimeout`, `stamp` occur only inside a tick, as in the real
-loop); from any state whose controller is reachable from `LinkCcController::new()` and whose links carry admissible
-targets (start-up: empty controller, targets 0).  Every scalar instance of the controller, in particular `Float`
-(`C16_bounds_ctl` through the arm). -/
+injection events and bare `hk` / `syncTimeout` passes (`FEv.wf`, since audit 5 A4: only a BARE `stamp` - verdicts
+that are inputs - is excluded; the pre-loop pass `[.other .syncTimeout, .other (.hk now0)]` of the real sender is a
+well-formed prefix, example `exEvsPre`); from any state whose controller is reachable from
+`LinkCcController::new()` and whose links carry admissible targets (start-up: empty controller, targets 0).  Every
+scalar instance of the controller, in particular `Float` (`C16_bounds_ctl` through the arm).
+LIMIT (audit 5, A3): the disjunct `ccTarget = 0` is allowed for every link at every time here; that 0 occurs only
+for links created since the last tick, and that a non-zero target is the link's OWN entry's, is
+`C16_arm_own_snapshot_run` below. -/
 theorem C16_arm_bounds_run (v : Views F G) (s : Full F G) (h : ArmInv s) (es : List FEv)
     (hwf : ∀ e ∈ es, e.wf = true) :
     ArmInv (Full.run v s es).1 ∧
@@ -559,6 +782,301 @@ example :
     ids (Full.run exViews (hkArm exViews exF 5100).1 [.other exReload]).1.sys.links = [1, 3, 7, 8] := by
   refine ⟨by decide +kernel, by decide +kernel, by decide +kernel⟩
 
+/-- A run of the REAL sender starts with the pre-loop pass (`sync_conn_timeout; handle_housekeeping` once, without
+classifier / controller / stamping loop - `run_sender_with_config`, "Run housekeeping once before entering the main
+event loop"), then the loop events. -/
+def exEvsPre : List FEv := [.other .syncTimeout, .other (.hk 4990)] ++ exEvs
+
+-- non-vacuity (audit 5, A4): a run that starts with the pre-loop pass is well-formed (until audit 5 `FEv.wf` rejected
+-- it), so `C16_arm_bounds_run` covers it; its trace is fresh, and it ends with the links 1, 3, 7, 8
+example : (∀ e ∈ exEvsPre, e.wf = true) ∧ ArmInv (Full.run exViews exF exEvsPre).1 ∧
+    FreshRun exF.sys (trace exViews exF exEvsPre) ∧
+    ids (Full.run exViews exF exEvsPre).1.sys.links = [1, 3, 7, 8] := by
+  have hinv : ArmInv exF := by
+    refine ⟨CtlReach.tick _ _ CtlReach.empty, ?_⟩
+    have : exF.sys.links.map (·.ccTarget) = [1000000, 1000000, 1000000] := by decide +kernel
+    intro l hl
+    have hm : l.ccTarget ∈ exF.sys.links.map (·.ccTarget) := List.mem_map.2 ⟨l, hl, rfl⟩
+    rw [this] at hm
+    simp only [List.mem_cons, List.not_mem_nil, or_false, or_self] at hm
+    exact .inr (by omega)
+  exact ⟨by decide, (C16_arm_bounds_run exViews exF hinv exEvsPre (by decide)).1, by decide +kernel,
+    by decide +kernel⟩
+
+/-! ### Run level: right after a tick every link carries the snapshot of ITS OWN entry (audit 5, A3)
+
+`C16_arm_bounds_run` allows the stamped target 0 for every link at every time, so "the arm stamps 0 on every present
+link" would satisfy it.  `C16_arm_target_is_snapshot` excludes that for ONE arm; this section lifts it to runs: right
+after every tick of every run every link carries the snapshot of the controller entry of its OWN conn id (target
+within bounds, never 0), and between ticks a link whose target is 0 has a conn id DRAWN BY A RELOAD SINCE THE LAST
+TICK (created since; every other link still carries its own snapshot - the controller does not move between ticks). -/
+
+/-- Link `l` carries the snapshot of the entry the controller `c` holds for ITS OWN conn id: target, back-off flag,
+loss latch; the target is within [100 000, 200 000 000], in particular not 0. -/
+def OwnSnap (c : Ctl G) (l : FLink F) : Prop :=
+  ∃ st, c.get l.core.connId = some st ∧ l.ccTarget = st.target ∧
+    l.ccBackingOff = decide (st.state = .backingOff) ∧ l.lossDegraded = st.lossDegraded ∧
+    100000 ≤ l.ccTarget ∧ l.ccTarget ≤ 200000000
+
+theorem OwnSnap_congr (c : Ctl G) (l l' : FLink F) (hid : l'.core.connId = l.core.connId)
+    (hvd : verdictsOf l' = verdictsOf l) (h : OwnSnap c l) : OwnSnap c l' := by
+  obtain ⟨st, h1, h2, h3, h4, h5, h6⟩ := h
+  have e1 : l'.ccTarget = l.ccTarget := congrArg Stamp.ccTarget hvd
+  have e2 : l'.ccBackingOff = l.ccBackingOff := congrArg Stamp.ccBackingOff hvd
+  have e3 : l'.lossDegraded = l.lossDegraded := congrArg Stamp.lossDegraded hvd
+  exact ⟨st, by rw [hid]; exact h1, by rw [e1]; exact h2, by rw [e2]; exact h3, by rw [e3]; exact h4,
+    by rw [e1]; exact h5, by rw [e1]; exact h6⟩
+
+/-- One arm from a reachable controller: every link after it carries its own snapshot. -/
+theorem hkArm_ownSnap (v : Views F G) (hv : Faithful v) (s : Full F G) (hr : CtlReach s.ctl) (now : Nat) :
+    ∀ l' ∈ (hkArm v s now).1.sys.links, OwnSnap (hkArm v s now).1.ctl l' := by
+  intro l' hl'
+  obtain ⟨i, hi⟩ := List.getElem?_of_mem hl'
+  have hget := hkArm_get v s now i
+  rw [hi] at hget
+  cases hl : (afterHk s.sys now).1.links[i]? with
+  | none => rw [hl] at hget; cases hget
+  | some l =>
+    obtain ⟨l'', st, g1, g2, g3, g4, g5, g6⟩ := C16_arm_target_is_snapshot v hv s now i l hl
+    rw [hi] at g1
+    obtain rfl : l' = l'' := Option.some.inj g1
+    have hb := C16.C16_bounds_ctl (tickAll s.ctl (ccConns v (afterHk s.sys now).1.links) now)
+      (CtlReach.tick _ now hr) _ st g3
+    exact ⟨st, by rw [g2]; exact g3, g4, g5, g6, by rw [g4]; exact hb.1, by rw [g4]; exact hb.2.1⟩
+
+/-- The controller stays reachable from `LinkCcController::new()` along every run (ticks are `tick_all` calls, no
+other event touches it). -/
+theorem run_reach (v : Views F G) (s : Full F G) (hr : CtlReach s.ctl) (es : List FEv) :
+    CtlReach (Full.run v s es).1.ctl := by
+  induction es generalizing s with
+  | nil => exact hr
+  | cons e es ih =>
+    cases e with
+    | tick now => exact ih _ (CtlReach.tick _ now hr)
+    | other e => exact ih _ hr
+
+theorem Full_run_append (v : Views F G) (s : Full F G) (a b : List FEv) :
+    (Full.run v s (a ++ b)).1 = (Full.run v (Full.run v s a).1 b).1 := by
+  induction a generalizing s with
+  | nil => rfl
+  | cons e a ih => exact ih _
+
+/-- The conn ids a shell event draws: those of the successful bind attempts of a reload. -/
+def drawnOf : Ev → List Nat
+  | .reload _ _ outs => outs.filterMap id
+  | _ => []
+
+/-- The conn ids drawn by the reloads among a list of events of the whole sender. -/
+def drawnIds (es : List FEv) : List Nat :=
+  es.flatMap fun e => match e with
+    | .other e => drawnOf e
+    | .tick _ => []
+
+theorem getElem?_of_map_eq {α β : Type} (f : α → β) (l1 l2 : List α) (h : l1.map f = l2.map f) (i : Nat) (x : α)
+    (hx : l1[i]? = some x) : ∃ y, l2[i]? = some y ∧ f x = f y := by
+  have h' : (l1.map f)[i]? = (l2.map f)[i]? := by rw [h]
+  rw [List.getElem?_map, List.getElem?_map, hx] at h'
+  cases hy : l2[i]? with
+  | none => rw [hy] at h'; simp at h'
+  | some y => rw [hy] at h'; exact ⟨y, rfl, by simpa using h'⟩
+
+/-- One shell event that is not a bare stamp keeps "own snapshot of `c`, or 0 with a drawn conn id". -/
+theorem other_step_snap (s : Sys F) (c : Ctl G) (D : List Nat) (e : Ev) (hs : isStamp e = false)
+    (h : ∀ l ∈ s.links, OwnSnap c l ∨ (l.ccTarget = 0 ∧ l.core.connId ∈ D)) :
+    ∀ l ∈ (step s e).1.links, OwnSnap c l ∨ (l.ccTarget = 0 ∧ l.core.connId ∈ D ++ drawnOf e) := by
+  intro l' hl'
+  have weaken : ∀ l : FLink F, (OwnSnap c l ∨ (l.ccTarget = 0 ∧ l.core.connId ∈ D)) →
+      OwnSnap c l ∨ (l.ccTarget = 0 ∧ l.core.connId ∈ D ++ drawnOf e) := fun l hl =>
+    hl.imp id fun ⟨a, b⟩ => ⟨a, List.mem_append_left _ b⟩
+  by_cases hr : e.isReload = true
+  · cases e with
+    | reload rnow addrs outs =>
+      rcases (mem_reload_iff s rnow addrs outs l').1 hl' with ⟨hold, -⟩ | ⟨k, a, id', -, hout, rfl⟩
+      · exact weaken _ (h _ hold)
+      · refine .inr ⟨rfl, List.mem_append_right _ ?_⟩
+        exact List.mem_filterMap.2 ⟨some id', List.mem_of_getElem? hout, rfl⟩
+    | _ => cases hr
+  · have hnr : e.isReload = false := by simpa using hr
+    obtain ⟨i, hi⟩ := List.getElem?_of_mem hl'
+    obtain ⟨y1, hy1, e1⟩ := getElem?_of_map_eq _ _ _ (Hk.step_ids s e hnr) i l' hi
+    obtain ⟨y2, hy2, e2⟩ := getElem?_of_map_eq _ _ _ (step_verdicts s e hs hnr) i l' hi
+    obtain rfl : y1 = y2 := Option.some.inj (hy1.symm.trans hy2)
+    rcases h y1 (List.mem_of_getElem? hy1) with ho | ⟨hz, hd⟩
+    · exact .inl (OwnSnap_congr c y1 l' e1 e2 ho)
+    · refine .inr ⟨?_, List.mem_append_left _ (e1 ▸ hd)⟩
+      have : l'.ccTarget = y1.ccTarget := congrArg Stamp.ccTarget e2
+      rw [this]; exact hz
+
+/-- Events other than ticks and bare stamps: the controller stays, and every link carries its own snapshot of it or
+carries 0 and has a conn id drawn by one of the reloads among the events. -/
+theorem others_run_snap (v : Views F G) (s : Full F G) (D : List Nat) (es : List FEv)
+    (hes : ∀ e ∈ es, ∃ e', e = FEv.other e' ∧ isStamp e' = false)
+    (h : ∀ l ∈ s.sys.links, OwnSnap s.ctl l ∨ (l.ccTarget = 0 ∧ l.core.connId ∈ D)) :
+    (Full.run v s es).1.ctl = s.ctl ∧
+    ∀ l ∈ (Full.run v s es).1.sys.links, OwnSnap s.ctl l ∨ (l.ccTarget = 0 ∧ l.core.connId ∈ D ++ drawnIds es) := by
+  induction es generalizing s D with
+  | nil => exact ⟨rfl, fun l hl => (h l hl).imp id fun ⟨a, b⟩ => ⟨a, List.mem_append_left _ b⟩⟩
+  | cons e es ih =>
+    obtain ⟨e', rfl, hs⟩ := hes _ List.mem_cons_self
+    have hstep := other_step_snap s.sys s.ctl D e' hs h
+    have := ih (Full.step v s (.other e')).1 (D ++ drawnOf e')
+      (fun x hx => hes x (List.mem_cons_of_mem _ hx)) hstep
+    refine ⟨this.1, fun l hl => ?_⟩
+    have hd : D ++ drawnIds (FEv.other e' :: es) = D ++ drawnOf e' ++ drawnIds es := by
+      simp [drawnIds, List.flatMap_cons, List.append_assoc]
+    rw [hd]
+    exact this.2 l hl
+
+/-- **Right after every tick of every run every link carries the snapshot of its OWN controller entry; 0 only occurs
+for a link created since the last tick.**  From any state whose controller is reachable from
+`LinkCcController::new()` (start-up: empty), after ANY events `es` and a tick (`s1`): every link's stamped
+`cc_target_bps` / `cc_backing_off` / `loss_degraded` are the snapshot of the entry the controller holds for THAT
+link's conn id, the target within [100 000, 200 000 000] - never 0, never another link's.  After any further events
+`es'` up to the next tick (client / uplink / flush / reload / configuration …, no bare stamp; `s2`): the controller
+is the one of `s1`, and every link still carries its own snapshot OR carries 0 and its conn id was drawn by a reload
+among `es'` (`drawnIds`; with `FreshRun` that id was absent when drawn: a link created since the tick).
+Faithful views; no `Inv` needed. -/
+theorem C16_arm_own_snapshot_run (v : Views F G) (hv : Faithful v) (s : Full F G) (hr : CtlReach s.ctl)
+    (es : List FEv) (now : Nat) (es' : List FEv)
+    (hes' : ∀ e ∈ es', ∃ e', e = FEv.other e' ∧ isStamp e' = false) :
+    (∀ l ∈ (Full.run v s (es ++ [.tick now])).1.sys.links, OwnSnap (Full.run v s (es ++ [.tick now])).1.ctl l) ∧
+    (Full.run v s (es ++ [.tick now] ++ es')).1.ctl = (Full.run v s (es ++ [.tick now])).1.ctl ∧
+    ∀ l ∈ (Full.run v s (es ++ [.tick now] ++ es')).1.sys.links,
+      OwnSnap (Full.run v s (es ++ [.tick now] ++ es')).1.ctl l ∨
+      (l.ccTarget = 0 ∧ l.core.connId ∈ drawnIds es') := by
+  have h1 : ∀ l ∈ (Full.run v s (es ++ [.tick now])).1.sys.links,
+      OwnSnap (Full.run v s (es ++ [.tick now])).1.ctl l := by
+    rw [Full_run_append]
+    exact hkArm_ownSnap v hv _ (run_reach v s hr es) now
+  have h2 := others_run_snap v (Full.run v s (es ++ [.tick now])).1 [] es' hes' fun l hl => .inl (h1 l hl)
+  rw [Full_run_append v s (es ++ [FEv.tick now]) es']
+  refine ⟨h1, h2.1, fun l hl => ?_⟩
+  rw [h2.1]
+  simpa using h2.2 l hl
+
+-- non-vacuity: in the example run the first tick (5100) leaves the three links 1, 2, 3 with the snapshot targets of
+-- their own entries (not 0: the floor 100 000 for the fresh link 3); after the reload the created links 7, 8 carry 0,
+-- and 7, 8 are exactly the ids the reload drew; the retained links keep theirs
+example :
+    (Full.run exViews exF ([.other (.client 5000 exData)] ++ [.tick 5100])).1.sys.links.map
+        (fun l => (l.core.connId, decide (l.ccTarget = 0))) = [(1, false), (2, false), (3, false)] ∧
+    (Full.run exViews exF ([.other (.client 5000 exData)] ++ [.tick 5100] ++ [.other exReload])).1.sys.links.map
+        (fun l => (l.core.connId, decide (l.ccTarget = 0))) = [(1, false), (3, false), (7, true), (8, true)] ∧
+    drawnIds [.other exReload] = [7, 8] ∧
+    (∀ e ∈ [FEv.other exReload], ∃ e', e = FEv.other e' ∧ isStamp e' = false) ∧ CtlReach exF.ctl := by
+  refine ⟨by decide +kernel, by decide +kernel, by decide, ?_, CtlReach.tick _ _ CtlReach.empty⟩
+  intro e he
+  simp only [List.mem_singleton] at he
+  exact ⟨exReload, he, rfl⟩
+
 end c16
+
+/-! ## 4. The filter and the controller between ticks (audit 5, A10) -/
+
+/-- **No event other than a tick touches the weak-link filter or the CC controller** - client / uplink / flush
+traffic, configuration, the pre-loop pass, and in particular RELOADS: the stored rows (streaks, probation,
+`prev_weak`) and controller entries of retained AND of removed conn ids are exactly what the last tick left; rows of
+removed ids are dropped by the NEXT tick only (`nextRows` / `tick_all`'s `retain`).  So the verdicts of a tick depend
+on the events since the previous tick only through the link slice the tick reads.  (`run_other_keeps` cited as a
+theorem.  In the real loop the queued reload runs inside the tick, after the stamping loop and the stats publish;
+`Full` lets it happen anywhere, a superset.) -/
+theorem C17_arm_reload_keeps_filter (v : Views F G) (s : Full F G) (es : List FEv)
+    (h : ∀ e ∈ es, ∃ e', e = FEv.other e') :
+    (Full.run v s es).1.cls = s.cls ∧ (Full.run v s es).1.ctl = s.ctl :=
+  ⟨(run_other_keeps v s es h).2, (run_other_keeps v s es h).1⟩
+
+-- non-vacuity: a client datagram and the reload that REMOVES link 2: the filter still holds the stored row of conn
+-- id 2 (streak 3), the controller its entry, although the link list is now 1, 3, 7, 8
+example :
+    (Full.run exViews exF [.other (.client 5000 exData), .other exReload]).1.cls =
+      [(2, { prevWeak := true, weakStreak := 3 })] ∧
+    ((Full.run exViews exF [.other (.client 5000 exData), .other exReload]).1.ctl.get 2).isSome = true ∧
+    ids (Full.run exViews exF [.other (.client 5000 exData), .other exReload]).1.sys.links = [1, 3, 7, 8] := by
+  have h : ∀ e ∈ [FEv.other (.client 5000 exData), FEv.other exReload], ∃ e', e = FEv.other e' := by
+    intro e he
+    simp only [List.mem_cons, List.not_mem_nil, or_false] at he
+    rcases he with rfl | rfl
+    · exact ⟨_, rfl⟩
+    · exact ⟨_, rfl⟩
+  obtain ⟨h1, h2⟩ := C17_arm_reload_keeps_filter exViews exF _ h
+  refine ⟨h1, ?_, by decide +kernel⟩
+  rw [h2]; decide +kernel
+
+/-- A property of (conn id, the four verdict fields) that holds of every link, and of every freshly created link,
+still holds after ONE shell event that is not a bare stamp: no such event writes a verdict field or a conn id, a
+reload retains links whole or creates fresh ones. -/
+theorem other_step_verdict_inv (s : Sys F) (Q : Nat → Stamp → Prop)
+    (hnew : ∀ id a now, Q id (verdictsOf (FLink.newUplink id a now : FLink F))) (e : Ev) (hs : isStamp e = false)
+    (h : ∀ l ∈ s.links, Q l.core.connId (verdictsOf l)) :
+    ∀ l ∈ (step s e).1.links, Q l.core.connId (verdictsOf l) := by
+  intro l' hl'
+  by_cases hr : e.isReload = true
+  · cases e with
+    | reload rnow addrs outs =>
+      rcases (mem_reload_iff s rnow addrs outs l').1 hl' with ⟨hold, -⟩ | ⟨k, a, id', -, -, rfl⟩
+      · exact h _ hold
+      · exact hnew id' a rnow
+    | _ => cases hr
+  · have hnr : e.isReload = false := by simpa using hr
+    obtain ⟨i, hi⟩ := List.getElem?_of_mem hl'
+    obtain ⟨y1, hy1, e1⟩ := getElem?_of_map_eq _ _ _ (Hk.step_ids s e hnr) i l' hi
+    obtain ⟨y2, hy2, e2⟩ := getElem?_of_map_eq _ _ _ (step_verdicts s e hs hnr) i l' hi
+    obtain rfl : y1 = y2 := Option.some.inj (hy1.symm.trans hy2)
+    have := h y1 (List.mem_of_getElem? hy1)
+    rw [← e1, ← e2] at this
+    exact this
+
+/-- … hence after any events other than ticks and bare stamps. -/
+theorem others_run_verdict_inv (v : Views F G) (s : Full F G) (Q : Nat → Stamp → Prop)
+    (hnew : ∀ id a now, Q id (verdictsOf (FLink.newUplink id a now : FLink F))) (es : List FEv)
+    (hes : ∀ e ∈ es, ∃ e', e = FEv.other e' ∧ isStamp e' = false)
+    (h : ∀ l ∈ s.sys.links, Q l.core.connId (verdictsOf l)) :
+    ∀ l ∈ (Full.run v s es).1.sys.links, Q l.core.connId (verdictsOf l) := by
+  induction es generalizing s with
+  | nil => exact h
+  | cons e es ih =>
+    obtain ⟨e', rfl, hs⟩ := hes _ List.mem_cons_self
+    exact ih (Full.step v s (.other e')).1 (fun x hx => hes x (List.mem_cons_of_mem _ hx))
+      (other_step_verdict_inv s.sys Q hnew e' hs h)
+
+/-- **A link that carries `weak = true` was CONNECTED at the last tick** (audit 5, A5: the run-level form of
+`C17_arm_not_weak_when_disconnected`).  After a tick and ANY further events up to the next tick (client / uplink /
+flush traffic, reloads, failed sends, REG_ERR …, no bare stamp): every link whose `weak` flag is set has the conn id
+of a link that was `connected` when the tick classified it (after `handle_housekeeping`).  What is NOT claimed:
+that it is STILL connected - `mark_for_recovery` between ticks clears `connected` and leaves `weak` until the next
+tick.  A link created since the tick is not weak. -/
+theorem C17_arm_weak_was_connected_at_last_tick (v : Views F G) (hv : Faithful v) (s : Full F G) (now : Nat)
+    (hnd : (ids s.sys.links).Nodup) (es' : List FEv)
+    (hes' : ∀ e ∈ es', ∃ e', e = FEv.other e' ∧ isStamp e' = false) :
+    ∀ l ∈ (Full.run v (hkArm v s now).1 es').1.sys.links, l.weak = true →
+      ∃ l0 ∈ (afterHk s.sys now).1.links, l0.core.connId = l.core.connId ∧ l0.core.connected = true := by
+  have key := others_run_verdict_inv v (hkArm v s now).1
+    (fun id st => st.weak = true →
+      ∃ l0 ∈ (afterHk s.sys now).1.links, l0.core.connId = id ∧ l0.core.connected = true)
+    (fun id a rnow hw => by cases hw) es' hes' ?_
+  · exact fun l hl hw => key l hl hw
+  · intro l' hl' hw
+    obtain ⟨l, hl, hid, hw'⟩ := hkArm_mem_weak v hv s now l' hnd hl'
+    refine ⟨l, hl, hid.symm, ?_⟩
+    cases hc : l.core.connected with
+    | true => rfl
+    | false =>
+      have hw'' : l'.weak = true := hw
+      rw [hw'] at hw''
+      unfold Classifier.verdictOf at hw''
+      split at hw''
+      · cases hw''
+      · simp [hv.clsConnected, hc] at hw''
+
+-- non-vacuity: hypotheses on the example state / events (distinct ids; a reload and an uplink datagram after the
+-- tick); that a `weak = true` stamp occurs at all is shown by the harness counter `hkarm-weak-stamped` (A7)
+example : (ids exF.sys.links).Nodup ∧
+    (∀ e ∈ [FEv.other exReload, FEv.other (.uplink 5200 2 exData)], ∃ e', e = FEv.other e' ∧ isStamp e' = false) := by
+  refine ⟨by decide +kernel, ?_⟩
+  intro e he
+  simp only [List.mem_cons, List.not_mem_nil, or_false] at he
+  rcases he with rfl | rfl
+  · exact ⟨_, rfl, rfl⟩
+  · exact ⟨_, rfl, rfl⟩
 
 end Srtla.Props.SysArm
